@@ -48,6 +48,36 @@ pub enum PreClose {
     DuringHandshake { abrupt: bool },
 }
 
+/// A loopback listener on a port *below* the kernel's ephemeral range (32768..). The checks open
+/// tens of thousands of short connections; their TIME_WAIT remnants sit on ephemeral ports and
+/// made `bind(127.0.0.1:0)` fail with EADDRINUSE once (a harness problem, not the code's). Ports
+/// are taken from 12000..32000, starting at a per-process offset and skipping busy ones.
+pub fn bind_local_std() -> std::io::Result<std::net::TcpListener> {
+    use std::sync::atomic::{AtomicUsize, Ordering};
+    static NEXT: AtomicUsize = AtomicUsize::new(0);
+    const BASE: usize = 12_000;
+    const SPAN: usize = 20_000;
+    let start = (std::process::id() as usize).wrapping_mul(7919);
+    let mut last = std::io::Error::from(std::io::ErrorKind::AddrInUse);
+    for _ in 0..SPAN {
+        let k = NEXT.fetch_add(1, Ordering::Relaxed);
+        let port = BASE + (start + k) % SPAN;
+        match std::net::TcpListener::bind(("127.0.0.1", port as u16)) {
+            Ok(l) => return Ok(l),
+            Err(e) => last = e,
+        }
+    }
+    // as a last resort let the kernel choose
+    std::net::TcpListener::bind("127.0.0.1:0").map_err(|_| last)
+}
+
+/// the same for tokio (must be called inside a runtime)
+pub fn bind_local() -> std::io::Result<TcpListener> {
+    let l = bind_local_std()?;
+    l.set_nonblocking(true)?;
+    TcpListener::from_std(l)
+}
+
 fn abort_tcp(stream: &TcpStream) {
     // SO_LINGER 0: the close sends RST instead of FIN
     let _ = stream.set_linger(Some(Duration::ZERO));
